@@ -9,6 +9,7 @@ import RapidModel.Generated.Thresholds
 import RapidProofs.Reach
 import RapidProofs.ReachFloat
 import RapidProofs.TranslatedProgEq
+import RapidProofs.TranslatedFloatEq
 
 namespace Rapid.C18
 
@@ -122,7 +123,17 @@ theorem source_every_uint_reachable_unbiased (fe : Go.FEval) (H : FloatFacts fe 
   ReachesVal.of_runEq (fun k => tr_genUintRange fe _ H _ _ _ _ _ _ (fun _ _ _ => RunEq.refl _))
     (uintRangeUnbiased_reaches Rapid.Generated.ft min max v h1 h2 fuel)
 
+/-- every float64 the range allows is produced by the source's `float64FromParts(genFloatRange(…))` -/
+theorem source_every_float64_reachable (fe : Go.FEval) (H : FloatFacts fe Rapid.Generated.ft) (HB : FloatFactsBits fe Rapid.Generated.ft)
+    (min max t : UInt64) (hok : floatRangeOK fmt64 min max = true) (ht : FloatTarget fmt64 min max t) (fuel : Nat) :
+    ReachesVal (fun (k : UInt64 → Prog) =>
+      Translated.genFloatRange fe min max 52 (fuel + 1) (fun s e si sf => k (Translated.float64FromParts s e si sf))) t :=
+  ReachesVal.of_runEq
+    (fun k => (sim_float64Value fe _ H HB min max (fuel + 1) hok).runEq k k (fun _ _ h => by subst h; exact fun _ _ => rfl))
+    (every_float64_reachable min max t hok ht fuel)
+
 /-- the hypothesis on the evaluator can be met -/
-example : ∃ fe, FloatFacts fe Rapid.Generated.ft := ⟨_, floatFacts_feOf _ (by decide +kernel)⟩
+example : ∃ fe, FloatFacts fe Rapid.Generated.ft ∧ FloatFactsBits fe Rapid.Generated.ft :=
+  ⟨_, floatFacts_feOf _ (by decide +kernel), floatFactsBits_feOf _⟩
 
 end Rapid.C18
